@@ -12,7 +12,8 @@
 //!   helper  : as for target `ed` (scripted validator: verdict `e` = Err, `p` = panic)
 //!   tok     : hex bytes written to the terminal in one go (one key press), or `//` = "the next
 //!             tokens belong to the next read on the same editor" (a read that ended early
-//!             discards the rest of its tokens)
+//!             discards the rest of its tokens); `=<termios>` as the first token of a read = the
+//!             application installs these settings before that read
 //! observation: per read the tokens `b=<termios> d=<termios>[|<termios>…] a=<termios|gone>
 //!   p=<paste switches written, e.g. hl; - if none> r=<outcome>`; reads separated by `//`.
 //!   `d` lists the distinct consecutive samples taken each time the reader was blocked.
@@ -152,6 +153,9 @@ pub struct Req {
     pub tio: Tio,
     pub helper: String,
     pub reads: Vec<Vec<Vec<u8>>>,
+    /// settings the application installs on the terminal before the k-th read (token `=<termios>`
+    /// at the start of a read)
+    pub pre: Vec<Option<Tio>>,
 }
 
 pub fn parse(f: &[&str]) -> Option<Req> {
@@ -169,14 +173,22 @@ pub fn parse(f: &[&str]) -> Option<Req> {
     }
     let tio = Tio::dec(f[2])?;
     let mut reads: Vec<Vec<Vec<u8>>> = vec![vec![]];
+    let mut pre: Vec<Option<Tio>> = vec![None];
     for t in &f[4..] {
         if *t == "//" {
             reads.push(vec![]);
+            pre.push(None);
+        } else if let Some(ts) = t.strip_prefix('=') {
+            // only as the first token of a read
+            if !reads.last().unwrap().is_empty() || pre.last().unwrap().is_some() {
+                return None;
+            }
+            *pre.last_mut().unwrap() = Some(Tio::dec(ts)?);
         } else {
             reads.last_mut().unwrap().push(unhex(t)?);
         }
     }
-    Some(Req { vi, flags, tio, helper: f[3].to_string(), reads })
+    Some(Req { vi, flags, tio, helper: f[3].to_string(), reads, pre })
 }
 
 const ISIG: u32 = libc::ISIG;
@@ -266,6 +278,13 @@ pub fn exec(f: &[&str]) -> Option<String> {
         }
         if ri > 0 {
             obs.push("//".to_string());
+        }
+        if let Some(t) = &req.pre[ri] {
+            // the application changes the terminal settings between two reads
+            if !set_tio(pty.slave, t) {
+                obs.push("tcsetattr-failed".to_string());
+                break;
+            }
         }
         let before = get_tio(pty.slave);
         let mut out: Vec<u8> = vec![];
@@ -463,19 +482,24 @@ fn terminators(vi: bool) -> Vec<Vec<&'static str>> {
     ]
 }
 
-fn emit(
+fn emit(sink: &mut dyn FnMut(String), vi: bool, flags: &str, tio: &Tio, reads: &[Vec<String>]) {
+    emit_h(sink, vi, flags, tio, reads, HELPER)
+}
+
+fn emit_h(
     sink: &mut dyn FnMut(String),
     vi: bool,
     flags: &str,
     tio: &Tio,
     reads: &[Vec<String>],
+    helper: &str,
 ) {
     let mut req = format!(
         "raw {} {} {} {}",
         if vi { "v" } else { "e" },
         if flags.is_empty() { "-" } else { flags },
         tio.enc(),
-        HELPER
+        helper
     );
     for (i, r) in reads.iter().enumerate() {
         if i > 0 {
@@ -552,9 +576,33 @@ pub fn gen(ctx: &GenCtx, sink: &mut dyn FnMut(String)) {
                 let mut r2: Vec<String> = vec!["62".to_string(), "1a".to_string()];
                 r2.extend(t2.iter().map(|s| s.to_string()));
                 emit(sink, vi, fl, tio, &[r1.clone(), r2.clone()]);
+                {
+                    // the application switches the terminal to other settings between the reads
+                    let other = &fixed[(i * 7 + j * 3 + 1) % fixed.len()];
+                    let mut r2b = vec![format!("={}", other.enc())];
+                    r2b.extend(r2.iter().cloned());
+                    let mut r3b = vec![format!("={}", tio.enc()), "63".to_string(), "0d".to_string()];
+                    if j % 2 == 0 {
+                        r3b.remove(0);
+                    }
+                    emit(sink, vi, fl, tio, &[r1.clone(), r2b, r3b]);
+                }
                 if j % 3 == 0 {
                     emit(sink, vi, fl, tio, &[r1, r2, vec!["63".to_string(), "0d".to_string()]]);
                 }
+            }
+        }
+    }
+    // 3b. a helper (the hinter) panicking at its k-th call: k = 1 is while the prompt is first drawn,
+    //     before any key is read; later ones are inside the key loop
+    for vi in [false, true] {
+        for k in 1..=4usize {
+            for (fi, fl) in all_flags.iter().enumerate() {
+                let tio = &fixed[(k * 5 + fi) % fixed.len()];
+                let helper = format!("{}|Ph={}", HELPER, k);
+                let r1: Vec<String> = vec!["61".into(), "62".into(), "63".into(), "0d".into()];
+                emit_h(sink, vi, fl, tio, &[r1.clone()], &helper);
+                emit_h(sink, vi, fl, tio, &[r1.clone(), vec!["64".into(), "0d".into()]], &helper);
             }
         }
     }
@@ -589,6 +637,10 @@ pub fn gen(ctx: &GenCtx, sink: &mut dyn FnMut(String)) {
             if rng.chance(7, 8) {
                 let terms = terminators(vi);
                 toks.extend(rng.pick(&terms).iter().map(|s| s.to_string()));
+            }
+            if !reads.is_empty() && rng.chance(1, 3) {
+                let t2 = random_tio(&mut rng, &scratch, base, false);
+                toks.insert(0, format!("={}", t2.enc()));
             }
             reads.push(toks);
         }
